@@ -272,6 +272,18 @@ func (g *Gen) amount(h *big.Int) []byte {
 		}
 		return v.Bytes()
 	}
+	if g.R.Intn(4) == 0 {
+		// byte-length and word boundaries
+		exp := []uint{8, 16, 32, 56, 63, 64, 128}[g.R.Intn(7)]
+		v := new(big.Int).Lsh(big.NewInt(1), exp)
+		switch g.R.Intn(3) {
+		case 0:
+			v.Sub(v, big.NewInt(1))
+		case 1:
+			v.Add(v, big.NewInt(1))
+		}
+		return v.Bytes()
+	}
 	switch g.R.Intn(9) {
 	case 0:
 		return []byte{}
